@@ -360,6 +360,7 @@ def make_inputs(ctx, quick):
         b = open(p, "rb").read()
         data[p] = b
         weights.append(1.0 if len(b) < 6000 else (0.3 if len(b) < 30000 else (0.03 if len(b) < 64 * 1024 else 0.0)))
+    dm.DUP_CAP = 120 if quick else 5000
     n_mut = 1500 if quick else 18000
     n_raw = 250 if quick else 2000
     n = 0
